@@ -258,7 +258,7 @@ static void src_supply(size_t n) {
     if (unread) memcpy(nm, S.src.data.ptr + S.src.meta.ri, unread);
     if (n) memcpy(nm + unread, S.pay + S.fed, n);
     S.fed += n;
-    closed = S.src_close && (S.fed == S.paylen);
+    closed = (S.src_close == 1) && (S.fed == S.paylen);
     uint64_t pos = S.src.meta.pos + S.src.meta.ri;
     free(S.srcmem);
     S.srcmem = nm;
@@ -280,11 +280,23 @@ static void src_supply(size_t n) {
     if (n) memcpy(S.srcmem + S.src.meta.wi, S.pay + S.fed, n);
     S.fed += n;
     S.src.meta.wi += n;
-    S.src.meta.closed = S.src_close && (S.fed == S.paylen);
+    S.src.meta.closed = (S.src_close == 1) && (S.fed == S.paylen);
   }
 }
 
 static int src_exhausted(void) { return S.fed == S.paylen; }
+
+// late_close: src_close == 2 means the end of the stream is reported separately
+// from the last byte (a zero-length read after the data, as a file or socket
+// does): returns 1 if it just closed the source.
+static int late_close(void) {
+  if (S.src_close == 2 && src_exhausted() && !S.src.meta.closed) {
+    src_supply(0);
+    S.src.meta.closed = true;
+    return 1;
+  }
+  return 0;
+}
 
 // ---------------------------------------------------------------- destination
 
@@ -486,13 +498,15 @@ static void op_init(void) {
     fill_mem((uint8_t*)S.obj, sz, prefill);
   }
   uint64_t ver = WUFFS_VERSION;
-  if (vermode == 1) ver = 0;
-  else if (vermode == 2) ver = WUFFS_VERSION + 0x100000000ull * 0x10000; // other major
-  else if (vermode == 3) ver = WUFFS_VERSION + 0x100000000ull;            // newer minor
+  if (vermode == 1) ver = ((uint64_t)WUFFS_VERSION_MAJOR << 32);                                            // same major, oldest minor: accepted
+  else if (vermode == 2) ver = ((uint64_t)(WUFFS_VERSION_MAJOR + 1) << 32);                                 // other major: rejected
+  else if (vermode == 3) ver = ((uint64_t)WUFFS_VERSION_MAJOR << 32) | ((uint64_t)(WUFFS_VERSION_MINOR + 1) << 16); // newer minor: rejected
   wuffs_base__status st = S.k->init(S.obj, (size_t)((long)sz + delta), ver, flags);
   status_check(st);
   S.iface = S.k->upcast(S.obj);
-  S.inited = (st.repr == NULL);
+  // a failed initialize leaves the memory as it was: an earlier successful initialisation stays in force
+  if (prefill == 0xFD) S.inited = S.inited || (st.repr == NULL);
+  else S.inited = (st.repr == NULL);
   rec_begin('I');
   resp_str(st.repr);
   resp_u64((uint64_t)sz);
@@ -613,6 +627,7 @@ static void drive_iot(uint32_t maxcalls) {
     if (st.repr == wuffs_base__suspension__short_read) {
       S.nsusp_r++;
       if (scl0) { violation("$short read returned although the source was closed (everything supplied)"); final = st.repr; break; }
+      if (late_close()) continue;
       if (src_exhausted() && !S.src_close) { final = st.repr; break; } // nothing more to give, never closing: legitimately stuck
       src_supply(src_next_size());
       if (S.dst_flush_on_read && S.dst_mode == 2 && S.dst.meta.wi > 0) dst_more();
@@ -681,6 +696,7 @@ static void drive_img(uint32_t maxcalls) {
     if (st.repr == wuffs_base__suspension__short_read) {
       S.nsusp_r++;
       if (scl0) { violation("$short read from decode_image_config although the source was closed"); final = st.repr; goto done; }
+      if (late_close()) continue;
       if (src_exhausted() && !S.src_close) { final = st.repr; goto done; }
       src_supply(src_next_size());
       continue;
@@ -733,7 +749,8 @@ static void drive_img(uint32_t maxcalls) {
         if (st.repr == wuffs_base__suspension__short_read) {
           S.nsusp_r++;
           if (scl0) { violation("$short read from decode_frame_config although the source was closed"); final = st.repr; free(pix); goto done; }
-          if (src_exhausted() && !S.src_close) { final = st.repr; free(pix); goto done; }
+          if (late_close()) continue;
+      if (src_exhausted() && !S.src_close) { final = st.repr; free(pix); goto done; }
           src_supply(src_next_size());
           continue;
         }
@@ -766,7 +783,8 @@ static void drive_img(uint32_t maxcalls) {
         if (st.repr == wuffs_base__suspension__short_read) {
           S.nsusp_r++;
           if (scl0) { violation("$short read from decode_frame although the source was closed"); final = st.repr; free(pix); goto done; }
-          if (src_exhausted() && !S.src_close) { final = st.repr; free(pix); goto done; }
+          if (late_close()) continue;
+      if (src_exhausted() && !S.src_close) { final = st.repr; free(pix); goto done; }
           src_supply(src_next_size());
           continue;
         }
@@ -857,6 +875,7 @@ static void drive_tok(uint32_t maxcalls) {
     if (st.repr == wuffs_base__suspension__short_read) {
       S.nsusp_r++;
       if (scl0) { violation("$short read from decode_tokens although the source was closed"); final = st.repr; break; }
+      if (late_close()) continue;
       if (src_exhausted() && !S.src_close) { final = st.repr; break; }
       src_supply(src_next_size());
       continue;
@@ -956,7 +975,12 @@ static void drive_hash(void) {
 static void op_call(void) {
   uint8_t method = rq_u8();
   uint8_t variant = rq_u8();
-  if (!S.obj) { rec_begin('c'); resp_str("@stdh: no object"); rec_end(); return; }
+  if (!S.obj) {
+    rec_begin('c'); resp_str("?"); resp_str("@stdh: no object");
+    resp_u32(0); resp_u32(0); resp_u8(0); resp_u32(0); resp_u32(0); resp_u32(0); resp_u32(0); resp_u32(0); resp_u32(0);
+    rec_end();
+    return;
+  }
   if (!S.iface) S.iface = S.k->upcast(S.obj);
   wuffs_base__status st;
   st.repr = NULL;
@@ -967,6 +991,13 @@ static void op_call(void) {
   wuffs_base__io_buffer* srcp = (variant & 2) ? NULL : &S.src;
   wuffs_base__io_buffer* dstp = (variant & 1) ? NULL : &S.dst;
   void* self = (variant & 8) ? NULL : S.iface;
+  if (S.inited && !(variant & 8)) {
+    // raw histories: keep the work buffer at the length the decoder currently asks for
+    uint64_t wmin = 0;
+    if (S.k->iface == IF_IOT) wmin = wuffs_base__io_transformer__workbuf_len((const wuffs_base__io_transformer*)S.iface).min_incl;
+    else if (S.k->iface == IF_TOK) wmin = wuffs_base__token_decoder__workbuf_len((const wuffs_base__token_decoder*)S.iface).min_incl;
+    if (wmin && wmin <= (1u << 28)) { int wm = S.work_mode; S.work_mode = 0; work_regrow(wmin); S.work_mode = wm; }
+  }
   wuffs_base__slice_u8 work = S.work;
   if ((variant & 4) && work.len > 0) work.len -= 1;
   size_t sri0 = S.src.meta.ri, swi0 = S.src.meta.wi, dri0 = S.dst.meta.ri, dwi0 = S.dst.meta.wi;
